@@ -18,6 +18,7 @@ pub fn all() -> Vec<Box<dyn Scenario>> {
         Box::new(signnode::Flood),
         Box::new(signnode::SignNode { mode: signnode::Mode::Refinement }),
         Box::new(signnode::ManyPages { mode: signnode::Mode::NoPanic }),
+        Box::new(signnode::EmptyBus),
         Box::new(signnode::ManyPages { mode: signnode::Mode::Refinement }),
         Box::new(c08::C08),
         Box::new(c09::C09Real),
